@@ -225,6 +225,8 @@ def call_on_value(w, e, recv, mname, args, kwargs, s):
 def call_value(w, e, val, args, kwargs, s):
     from . import tables
 
+    if val[0] == "rawfunc" and len(val) == 2 and val[1] in w.prog.funcs:
+        return apply_repo(w, e, w.prog.funcs[val[1]], None, args, kwargs, s, raw=True)
     if val[0] == "closure":
         fi = w.prog.funcs.get(val[1])
         if fi is not None:
@@ -273,7 +275,8 @@ def call_value(w, e, val, args, kwargs, s):
         return call_on_value(w, e, val[1], val[2], args, kwargs, s)
     if val[0] == "attr" and isinstance(val[1], tuple):
         # a bound method taken as a value earlier (sign = key.sign; sign(x)): call it on its receiver
-        if val[2] in tables.METHODS:
+        ts_r = s.types(val[1])
+        if val[2] in tables.METHODS or (ts_r is not None and ts_r <= {"obj:argparse", "obj:logger"}):
             return call_on_value(w, e, val[1], val[2], args, kwargs, s)
     # a call through a value the analysis cannot resolve (args.func(args), table of functions)
     t = CallT("dynamic", [val] + list(args), kwargs)
@@ -335,7 +338,58 @@ def bind_params(w, e, fi, args, kwargs, skip_first):
     return mp, names + kwonly + extra_names
 
 
-def apply_repo(w, e, fi, clsbind, args, kwargs, s, closure=None):
+PASSIVE_DECORATORS = {"classmethod", "staticmethod", "property", "abstractmethod", "abc.abstractmethod", "overload", "typing.overload", "contextmanager", "contextlib.contextmanager", "functools.wraps", "wraps", "conda.plugins.hookimpl", "hookimpl", "cached_property", "functools.cached_property"}
+
+
+def active_decorators(fi):
+    """decorators that replace the function by something else (repo-defined wrappers), innermost last"""
+    out = []
+    for d in fi.node.decorator_list:
+        node = d.func if isinstance(d, ast.Call) else d
+        if ast.unparse(node) in PASSIVE_DECORATORS:
+            continue
+        out.append(d)
+    return out
+
+
+def decorated_value(w, fi):
+    """the callable a decorated function's name is bound to: decorators applied innermost first to
+    the raw function; None if a decorator cannot be evaluated statically"""
+    cache = w.eng.__dict__.setdefault("_decorated", {})
+    if fi.qualname in cache:
+        return cache[fi.qualname]
+    cache[fi.qualname] = None
+    val = ("rawfunc", fi.qualname)
+    for d in reversed(active_decorators(fi)):
+        dval = w.eng.static_term(fi.mod, d)
+        if dval is None or not _is_callable_term(dval):
+            return None
+        probe = ast.Call(func=ast.Name(id="$dec", ctx=ast.Load()), args=[], keywords=[])
+        ast.copy_location(probe, d)
+        ast.fix_missing_locations(probe)
+        from .walker import State, Walker
+        from .engine import _PseudoFunc
+
+        w0 = Walker(w.eng, _PseudoFunc(fi.mod))
+        outs = call_value(w0, probe, dval, (val,), (), State())
+        vals = [t for _s, k, t in outs if k == "val"]
+        if len(vals) != 1 or not _is_callable_term(vals[0]):
+            return None
+        val = vals[0]
+    cache[fi.qualname] = val
+    return val
+
+
+def apply_repo(w, e, fi, clsbind, args, kwargs, s, closure=None, raw=False):
+    if not raw and fi.parent is None and active_decorators(fi):
+        dv = decorated_value(w, fi)
+        if dv is not None:
+            full = tuple(args)
+            if fi.cls is not None and fi.is_classmethod:
+                full = (G("class:" + (clsbind or (fi.mod.short + "." + fi.cls))),) + full
+            return call_value(w, e, dv, full, kwargs, s)
+    if raw and fi.cls is not None and fi.is_classmethod and args and isinstance(args[0], tuple) and len(args[0]) == 2 and args[0][0] == "global" and args[0][1].startswith("class:"):
+        clsbind, args = args[0][1][6:], tuple(args[1:])
     is_method = fi.cls is not None and not fi.is_staticmethod
     if fi.cls is not None and not fi.is_classmethod and not fi.is_staticmethod:
         # instance method called through the class (Class.m(obj, ...)): first arg is self
@@ -377,7 +431,7 @@ def apply_repo(w, e, fi, clsbind, args, kwargs, s, closure=None):
     # a callee that receives a function / class object (a higher-order helper such as
     # _passes(check, value)) is analysed specialised on that argument, so that the call through
     # the parameter resolves
-    will_inline = fi.parent is not None or getattr(fi, "is_lambda", False) or fi.qualname in w.inline or (w.inline and fi.qualname.split(".")[-1].startswith("_") and fi.mod.short == w.fi.mod.short and "@private" in w.inline)
+    will_inline = raw or fi.parent is not None or getattr(fi, "is_lambda", False) or fi.qualname in w.inline or (w.inline and fi.qualname.split(".")[-1].startswith("_") and fi.mod.short == w.fi.mod.short and "@private" in w.inline)
     # ... and a private helper that is analysed in place is also specialised on constant string
     # arguments (message templates, field names), so that e.g. template.format(x) is decided
     funargs = tuple(sorted(((n, mp[n]) for n in order if _is_callable_term(mp[n]) or (will_inline and is_const(mp[n]) and isinstance(mp[n][2], str)) or (will_inline and n.startswith("*") and mp[n][0] == "lit")), key=lambda kv: kv[0]))
@@ -396,8 +450,8 @@ def apply_repo(w, e, fi, clsbind, args, kwargs, s, closure=None):
         callee = callee + "<" + ",".join("%s=%s" % (n, t[1] if isinstance(t[1], str) and t[0] != "const" else "%s#%x" % (t[0], hash(t) & 0xFFFFFF)) for n, t in funargs) + ">"
     callterm = CallT(callee, argterms)
     w.eng.callee_index[callee] = (fi, clsbind_eff, tuple(order))
-    mode = "inline" if (fi.parent is not None or getattr(fi, "is_lambda", False) or fi.qualname in w.inline or callee in w.inline or (w.inline and fi.qualname.split(".")[-1].startswith("_") and fi.mod.short == w.fi.mod.short and "@private" in w.inline)) else "grouped"
-    sm = w.eng.summary(fi, clsbind_eff, w.inline if mode == "inline" else frozenset(), funargs)
+    mode = "inline" if (raw or fi.parent is not None or getattr(fi, "is_lambda", False) or fi.qualname in w.inline or callee in w.inline or (w.inline and fi.qualname.split(".")[-1].startswith("_") and fi.mod.short == w.fi.mod.short and "@private" in w.inline)) else "grouped"
+    sm = w.eng.summary(fi, clsbind_eff, w.inline if mode == "inline" else frozenset(), funargs, raw=True)
     pmap = {P(n): mp[n] for n in order}
     pmap.update(back)
     # attributes of tracked objects passed in: the callee's P(self).attr denotes the current value
@@ -567,7 +621,7 @@ def _is_callable_term(t):
         return False
     if len(t) == 2 and t[0] == "global" and t[1].startswith(("func:", "class:", "ext:", "builtin:")):
         return True
-    if t[0] == "closure" or (t[0] in ("gen", "nt", "enum") and len(t) == 3) or t[0] == "excobj":
+    if t[0] == "closure" or (t[0] in ("gen", "nt", "enum") and len(t) == 3) or t[0] == "excobj" or (t[0] == "rawfunc" and len(t) == 2):
         return True
     if len(t) == 2 and t[0] == "global" and t[1].startswith("const:"):
         return True  # a module constant (a record, a table, a compiled pattern): specialise on it
